@@ -87,6 +87,15 @@ def rand_num(rng):
             return v
 
 
+def safe_num(rng):
+    """A number that is harmless if a random format consumes it as a `*` width/precision:
+    its integer part is at most 70000 or does not fit u32 (then the code reports an error)."""
+    while True:
+        v = rand_num(rng)
+        if abs(v) <= 70000 or abs(v) >= U32:
+            return v
+
+
 def vnum(x):
     return ["n", bits_of(x)]
 
@@ -605,7 +614,7 @@ def gen_malformed(rng):
         if re.search(r"(?<![0-9])[0-9]{3,10}(?![0-9])", fmt):
             fmt = "%5.q"
     nvals = rng.randrange(0, 4)
-    vals = [rng.choice([vnum(rand_num(rng)), vnum(3.0), vstr("s"), vother(0)]) for _ in range(nvals)]
+    vals = [rng.choice([vnum(safe_num(rng)), vnum(3.0), vstr("s"), vother(0)]) for _ in range(nvals)]
     return {"via": rng.choice(["fmt", "pct"]), "f": vstr(fmt), "shape": "arr", "vals": vals, "tag": "malformed",
             "nontrivial": len(fmt) > 2, "big": False}
 
